@@ -106,26 +106,27 @@ type zzvRegProj struct {
 }
 
 type zzvRegWorld struct {
-	t       testing.TB
-	m       *zzvMesh
-	ag      map[string]*Agent // "a", "b", "c"
-	echo    *zzvEcho
-	mu      sync.Mutex
-	gating  bool
-	connOf  map[*peer.Connection]zzvRegEnd
-	conns   map[zzvRegEnd]*peer.Connection
-	kept    map[*peer.Connection]bool // connections registerConnection kept (threads were started)
-	parked  map[*peer.Connection]chan struct{}
-	regDone map[string]int
-	lastReg map[string]*peer.Connection
-	tdDone  map[*peer.Connection]int
-	proc    map[string]int
-	base    int
-	dialCh  map[int]chan error
-	dialRes map[int]*string // nil: still running; "" ok; else error text
-	streams []net.Conn
-	expProc map[string]int
-	oracle  []string // oracle violations of the current step
+	t           testing.TB
+	m           *zzvMesh
+	ag          map[string]*Agent // "a", "b", "c"
+	echo        *zzvEcho
+	mu          sync.Mutex
+	gating      bool
+	connOf      map[*peer.Connection]zzvRegEnd
+	conns       map[zzvRegEnd]*peer.Connection
+	kept        map[*peer.Connection]bool // connections registerConnection kept (threads were started)
+	parked      map[*peer.Connection]chan struct{}
+	regDone     map[string]int
+	lastReg     map[string]*peer.Connection
+	tdDone      map[*peer.Connection]int
+	proc        map[string]int
+	base        int
+	dialCh      map[int]chan error
+	dialRes     map[int]*string // nil: still running; "" ok; else error text
+	streams     []net.Conn
+	expProc     map[string]int
+	oracle      []string // oracle violations of the current step
+	idleReaders int      // read loops blocked in Read when a and b are not connected (the two ends of C-A)
 }
 
 func zzvRegNode(x string) string { return strings.ToUpper(x) }
@@ -176,6 +177,9 @@ func zzvRegNewWorld(t testing.TB) *zzvRegWorld {
 	}
 	m.Quiesce(10*time.Second, 20*time.Millisecond)
 	w.resetMaps()
+	if !zzvWaitFor(10*time.Second, func() bool { w.idleReaders = zzvBlockedReadLoops(); return w.idleReaders == 2 }) {
+		t.Fatalf("zzv: expected the two read loops of the C-A link to be blocked in Read, found %d", w.idleReaders)
+	}
 	m.Net.mu.Lock()
 	m.Net.holdNew = true
 	w.base = len(m.Net.links)
@@ -472,7 +476,7 @@ func (w *zzvRegWorld) fatalf(format string, args ...any) {
 }
 
 // noteRegistered records which connection object registerConnection just handled for (x, l)
-func (w *zzvRegWorld) awaitRegister(x string, l int, before int, readers int) {
+func (w *zzvRegWorld) awaitRegister(x string, l int, before int, _ int) {
 	ok := zzvAwait(15*time.Second, func() bool {
 		w.mu.Lock()
 		defer w.mu.Unlock()
@@ -492,22 +496,74 @@ func (w *zzvRegWorld) awaitRegister(x string, l int, before int, readers int) {
 		w.mu.Unlock()
 		// the new read loop must be blocked in Read before the schedule goes on: a read loop that finds its
 		// connection already closed when it starts ends without a teardown (a behaviour the spec does not model)
-		if !zzvAwait(15*time.Second, func() bool { return zzvBlockedReadLoops() > readers }) {
+		started := false
+		for dl := time.Now().Add(15 * time.Second); time.Now().Before(dl); time.Sleep(150 * time.Microsecond) {
+			// every kept connection that has not been closed has a read loop blocked in Read (plus the C-A link's)
+			w.mu.Lock()
+			live := 0
+			for kc := range w.kept {
+				select {
+				case <-kc.Done():
+				default:
+					live++
+				}
+			}
+			w.mu.Unlock()
+			if zzvBlockedReadLoops() >= w.idleReaders+live {
+				started = true
+				break
+			}
+		}
+		if !started {
 			w.fatalf("read loop of %s for link %d did not start reading", x, l)
 		}
+		return
+	}
+	// rejected duplicate: probe that nothing arriving on it is ever delivered.  A harmless frame (a control
+	// response nobody waits for) is injected on the rejected end; it must neither be read nor reach processFrame.
+	lk := w.link(l)
+	d := lk.Dir(zzvRegNode(zzvRegOther(x)))
+	probe := &protocol.ControlResponse{RequestID: 1<<63 + 12345, ControlType: protocol.ControlTypeStatus, Success: false, Data: []byte("zzv-probe")}
+	raw, err := (&protocol.Frame{Type: protocol.FrameControlResponse, StreamID: protocol.ControlStreamID, Payload: probe.Encode()}).Encode()
+	if err != nil {
+		w.fatalf("probe frame: %v", err)
+	}
+	w.mu.Lock()
+	procBefore := w.proc[x]
+	w.mu.Unlock()
+	d.mu.Lock()
+	inBefore := len(d.inbuf)
+	d.mu.Unlock()
+	d.inject(raw)
+	wait := 4 * time.Millisecond
+	if zzvThorough() {
+		wait = 25 * time.Millisecond
+	}
+	time.Sleep(wait)
+	d.mu.Lock()
+	inAfter := len(d.inbuf)
+	d.mu.Unlock()
+	w.mu.Lock()
+	after := w.proc[x]
+	w.mu.Unlock()
+	if after != procBefore || inAfter != inBefore+len(raw) {
+		w.oracle = append(w.oracle, fmt.Sprintf("dead frames: a frame arriving on the duplicate connection %d that %s rejected was read (%d bytes) / processed (%d frames)",
+			l, x, inBefore+len(raw)-inAfter, after-procBefore))
 	}
 }
 
 // zzvBlockedReadLoops counts peer.Manager.readLoop goroutines that are blocked reading an in-memory link.
+var zzvStackBuf = make([]byte, 1<<19) // only the controller goroutine uses it
+
 func zzvBlockedReadLoops() int {
-	buf := make([]byte, 1<<20)
+	var buf []byte
 	for {
-		n := runtime.Stack(buf, true)
-		if n < len(buf) {
-			buf = buf[:n]
+		n := runtime.Stack(zzvStackBuf, true)
+		if n < len(zzvStackBuf) {
+			buf = zzvStackBuf[:n]
 			break
 		}
-		buf = make([]byte, 2*len(buf))
+		zzvStackBuf = make([]byte, 2*len(zzvStackBuf))
 	}
 	cnt := 0
 	for _, g := range strings.Split(string(buf), "\n\n") {
